@@ -170,6 +170,49 @@ def _rand_program(rng):
     }
 
 
+def _rand_recycle(rng):
+    ops, live = [], []
+    nxt = 1
+    free = []
+    for _ in range(rng.randint(3, 14)):
+        if live and rng.random() < 0.4:
+            i = rng.choice(live)
+            live.remove(i)
+            free.append(i)
+            ops.append(["del", i, rng.random() < 0.5])
+        else:
+            k = rng.choice([None, None, 0, 1, 2, 3, 5])
+            if free:
+                i = free.pop()
+            else:
+                i = nxt
+                nxt += 1
+            live.append(i)
+            ops.append(["add", k])
+    return {"k": "recycle", "ops": ops}
+
+
+def _run_recycle(spec):
+    """Returns, per add, the observation of the returned handle."""
+    from hugr import ops as hops
+    from hugr.hugr import Hugr
+    from hugr.hugr.node_port import Node
+
+    h = Hugr()
+    handles = {}
+    out = []
+    for op in spec["ops"]:
+        if op[0] == "add":
+            n = h.add_node(hops.Custom("x", extension="v"), num_outs=op[1])
+            handles[n.idx] = n
+            out.append((op[1], n))
+        else:
+            # delete through the handle that add_node returned, or through a bare Node(idx)
+            n = handles.pop(op[1])
+            h.delete_node(n if op[2] else Node(op[1]))
+    return out
+
+
 def cases(rng, tier):
     if tier == "quick":
         nmax, lim, nprog, nsample = 6, 9, 250, 600
@@ -180,6 +223,10 @@ def cases(rng, tier):
     # builder programs first: in `search` mode the caller stops at the first failure
     for _ in range(nprog):
         yield _rand_program(rng)
+    # graph-level histories with deletions and index reuse: every handle add_node returns knows
+    # exactly the count requested for THIS node (none when no count was given)
+    for _ in range(max(nprog // 2, 100)):
+        yield _rand_recycle(rng)
     yield from _ports_cases()
     allget = list(_get_cases(nmax, lim))
     yield from allget
@@ -560,6 +607,12 @@ def run_impl(spec):
         return dumps(
             [eq, (hash(p) == hash(q)) if eq else A("-"), neq, (hash(p.node) == hash(q.node)) if neq else A("-")]
         )
+    if k == "recycle":
+        try:
+            res = _run_recycle(spec)
+        except Exception as e:  # noqa: BLE001
+            return "recycle-raised " + type(e).__name__
+        return dumps([_handle_obs(n, req) for req, n in res])
     if k == "build":
         try:
             ctx = _run_program(spec)
@@ -596,6 +649,13 @@ def payload(spec):
     if k == "ports":
         enc = lambda d: [A(d[0]), d[1], d[2], o(d[3]), [[a, b] for a, b in d[4]]]  # noqa: E731
         return "handle.ports", dumps([enc(spec["a"]), enc(spec["b"])])
+    if k == "recycle":
+        try:
+            res = _run_recycle(spec)
+        except Exception:  # noqa: BLE001
+            return None
+        items = [[A("addnode" if req is not None else "addnode-none"), n.idx, req if req is not None else 0] for req, n in res]
+        return "handle.build", dumps(items)
     if k == "build":
         try:
             ctx = _run_program(spec)
@@ -767,6 +827,40 @@ def _oracle_build(spec):
     return fails
 
 
+def _oracle_recycle(spec):
+    from core import Failure
+
+    fails = []
+    try:
+        res = _run_recycle(spec)
+    except Exception as e:  # noqa: BLE001
+        return [Failure("Hugr.add_node", "raises-on-valid-history", type(e).__name__)]
+    for pos, (req, n) in enumerate(res):
+        if req is None:
+            try:
+                list(n)
+                fails.append(Failure("Hugr.add_node", "handle-without-count-iterates", f"add #{pos}"))
+            except ValueError:
+                pass
+            except Exception as e:  # noqa: BLE001
+                fails.append(Failure("Hugr.add_node", "handle-without-count-wrong-error", type(e).__name__))
+            try:
+                if n[7].offset != 7:
+                    fails.append(Failure("Hugr.add_node", "handle-without-count-index", f"add #{pos}"))
+            except Exception as e:  # noqa: BLE001
+                fails.append(Failure("Hugr.add_node", "handle-without-count-index", type(e).__name__))
+        else:
+            try:
+                got = [p.offset for p in n]
+            except Exception as e:  # noqa: BLE001
+                got = type(e).__name__
+            if got != list(range(req)):
+                fails.append(Failure("Hugr.add_node", "handle-count-not-requested", f"add #{pos}: {got} vs {req}"))
+        if fails:
+            break
+    return fails
+
+
 def oracle(spec):
     k = spec["k"]
     if k == "get":
@@ -775,6 +869,8 @@ def oracle(spec):
         return _oracle_ports(spec)
     if k == "build":
         return _oracle_build(spec)
+    if k == "recycle":
+        return _oracle_recycle(spec)
     return []  # pyslice / pyitem validate the Lean specification, not the implementation
 
 
@@ -789,6 +885,8 @@ def nontrivial(spec, obs):
         return obs != "()"
     if k == "ports":
         return True
+    if k == "recycle":
+        return any(o[0] == "del" for o in spec["ops"])
     return "(ok true 0" in obs or "(ok false" in obs
 
 
@@ -803,6 +901,9 @@ def stats(spec, obs, counters):
         if spec["x"][0] == "slice":
             st = spec["x"][3]
             counters["get.slice.step." + ("pos" if st is None or st > 0 else "nonpos(model only)")] += 1
+    elif k == "recycle":
+        counters["recycle.adds"] += sum(o[0] == "add" for o in spec["ops"])
+        counters["recycle.deletes"] += sum(o[0] == "del" for o in spec["ops"])
     elif k == "build":
         counters["build.handles"] += obs.count("(ok") + obs.count("ValueError")
         for st in spec["steps"]:
@@ -812,6 +913,8 @@ def stats(spec, obs, counters):
 
 
 def shrink(spec, pred):
+    if spec["k"] == "recycle":
+        return {**spec, "ops": ddmin(spec["ops"], lambda o: pred({**spec, "ops": o}))}
     if spec["k"] != "build":
         return spec
     steps = ddmin(spec["steps"], lambda s: pred({**spec, "steps": s}))
